@@ -42,6 +42,21 @@ def crash_target_on_request(run, p, limit=1, delay=(0.0, 0.6), keep=(), reboot_p
         w.on_hook('send_stop_process', lambda inst, identifier, namespec: on_start(inst, identifier, namespec, ''))
 
 
+def drop_start_requests(run, p):
+    """ Unanswered requests: each supvisors.start_args XML-RPC (also the one an instance sends to itself) is lost with
+    probability p - the target never hears of it, no event ever comes back. """
+    w, rng = run.world, run.rng
+    previous = w.msg_filter
+
+    def flt(world, src_inst, dst_nick, method, args):
+        if method == 'supvisors.start_args' and src_inst is not None and rng.random() < p:
+            run.count('start_requests_lost')
+            return 'drop'
+        return previous(world, src_inst, dst_nick, method, args) if previous else None
+
+    w.msg_filter = flt
+
+
 def drop_process_publications(run, p, kinds=('PROCESS',), only_states=None):
     """ Lossy channel: each PROCESS publication between two different instances is silently dropped with
     probability p (the sender believes it was sent). """
